@@ -54,6 +54,16 @@ class Lengths:
         return ("len", t)
 
     # ------------------------------------------------------------------ functions
+    def module_engine(self, f):
+        import evalnode as E
+        mod = f.path.rsplit("::", 1)[0] + "::" if "::" in f.path else ""
+        if not hasattr(self, "_engines"):
+            self._engines = {}
+        if mod not in self._engines:
+            pub = [g.path for g in self.prog.lib_fns() if g.path.startswith(mod) and g.vis == "Public"] if mod else []
+            self._engines[mod] = terms.Engine(self.prog, inline=True, hooks=E.Hooks([mod] if mod else [], opaque_names=pub))
+        return self._engines[mod]
+
     def preserved(self, f):
         """{result component (None = whole value) -> index of the parameter whose length it has}"""
         if f.qual in self.memo:
@@ -63,7 +73,8 @@ class Lengths:
         self.stack.add(f.qual)
         out = {}
         try:
-            s = self.engine.summary(f)
+            # private helpers of the function's own module are seen through (a lazy `impl Iterator` helper, a shared evaluation loop)
+            s = self.module_engine(f).summary(f)
             if s is not None and s.ret is not None:
                 pn = f.param_names()
                 leaves = self.success_leaves(s.ret)
